@@ -1453,8 +1453,8 @@ static void MPSreadBounds(MPSInput& mps, LPColSetBase<Rational>& cset, const Nam
                   std::cerr << e.what() << '\n';
                }
 
-            // ILOG extension (Integer Bound)
-            if(mps.field1()[1] == 'I')
+            // ILOG extension (Integer Bound); "MI" is the ordinary bound type for a lower bound of minus infinity
+            if(!strcmp(mps.field1(), "LI") || !strcmp(mps.field1(), "UI"))
             {
                if(intvars != nullptr)
                   intvars->addIdx(idx);
